@@ -7,6 +7,7 @@ RULE = ("Published/expiry seconds {0,1,2^31-1,2^31,2^32-1,...} x offsets {0,1,65
         "compared with exact limb arithmetic in TLA+; NewLease/NewLease2 with seconds {0,1,2^31-1,2^32-1,2^32,2^32+1,year 2200}, negative "
         "times and sub-second parts; lease sets with every ordering (incl. duplicates) of up to 3-4 of 8 boundary dates plus seeded orders "
         "of up to 16: newest/oldest are members and bounds; expiry one and two days either side of the driver's clock for six structures.")
+RULE += (' Absolute expiry instants at both ends of the wire range (published + expires >= 2^32, 1970); pre-epoch and 2^61..2^63 second counts in the lease constructors.')
 ASSUME = [common.TRUSTED, "TLC integers are 32-bit with overflow detection, so all wide quantities are base-256 limb sequences (Bytes.tla) and cannot wrap silently"]
 META = {
     "level": "model_checking",
